@@ -252,6 +252,31 @@ func C01(r *h.Run) {
 			}
 		}
 	}
+	// around the compress-min-bytes threshold, both directions, every protocol and kind:
+	// messages below the threshold travel uncompressed next to compressed ones
+	for _, proto := range protos {
+		for _, kind := range kinds {
+			for _, comp := range []string{"gzip", "tagA"} {
+				for _, codec := range []string{"toy", "proto"} {
+					sizes := []int{1, 7, 0, 8, 9, 3}
+					var reqMsgs, resMsgs [][]byte
+					for k, sz := range sizes {
+						reqMsgs = append(reqMsgs, seqPayload(rng, sz))
+						resMsgs = append(resMsgs, seqPayload(rng, sizes[(k+3)%len(sizes)]))
+					}
+					if kind == "unary" || kind == "server" {
+						// the single request message: once below, once at the threshold
+						for _, sz := range []int{1, 5, 8, 20} {
+							rm := append([][]byte{seqPayload(rng, sz)}, reqMsgs[1:]...)
+							runCfg(e2eCfg{Proto: proto, Codec: codec, Compression: comp, Kind: kind, SendCompression: true, MinBytes: 8, Via: viaLocal}, rm, resMsgs, "e2e_threshold")
+						}
+						continue
+					}
+					runCfg(e2eCfg{Proto: proto, Codec: codec, Compression: comp, Kind: kind, SendCompression: true, MinBytes: 8, Via: viaLocal}, reqMsgs, resMsgs, "e2e_threshold")
+				}
+			}
+		}
+	}
 	// real servers (sockets): HTTP/1.1 (no bidi) and HTTP/2
 	nReal := r.N(18, 120)
 	for k := 0; k < nReal; k++ {
